@@ -1,7 +1,7 @@
 (** C15 — Duplicate detection reports exactly the repeated reactions.
     Property theorems only; every proof is [exact <lemma>]. *)
 From Coq Require Import List Arith Bool Sorted Permutation String ZArith.
-From Naunet Require Import Lib.ListX Model.Dup Proofs.DupProofs.
+From Naunet Require Import Lib.ListX Model.Dup Proofs.DupProofs Proofs.DupHash.
 Import ListNotations.
 
 Definition equivalence {K} (e : K -> K -> bool) : Prop :=
@@ -73,3 +73,12 @@ Theorem default_refuted :
     fst (find_dup rxn_eqb [a; b; c]) = [1] /\ fst (find_dup rxn_eqb [b; a; c]) = [1; 2].
 Proof. exact default_refuted_thm. Qed.
 Print Assumptions default_refuted.
+
+(* the dictionary of find_duplicate_reaction looks an entry up by hash first:
+   reactions that compare equal (default and brief mode) hash alike, whatever the
+   order their species were written in and whatever hash the species have *)
+Theorem equal_reactions_hash_alike : forall (h : nat -> nat) a b,
+  (rxn_eqb a b = true -> rxn_hash h a = rxn_hash h b) /\
+  (brief_eqb a b = true -> rxn_hash h a = rxn_hash h b).
+Proof. exact eq_same_hash_lemma. Qed.
+Print Assumptions equal_reactions_hash_alike.
